@@ -656,6 +656,8 @@ func runC02Offsets(c *Ctx) {
 				case v4 && !v6:
 					l4 = hC.Add(bitprov.Bits("", int(H), 3, 0).Shl(2))
 					exp["offsetIP4"] = hC.String()
+					// the datagram ends at TotalLen: Ethernet padding (frames below the 60-byte minimum) is not payload
+					exp["ether"] = "p[0:" + hC.Add(bitprov.BE("", int(H)+2, 2)).String() + "]"
 					exp["SrcAddr.IP"] = fmt.Sprintf("[%d:%d]", H+12, H+16)
 					exp["DstAddr.IP"] = fmt.Sprintf("[%d:%d]", H+16, H+20)
 				case v6 && !v4:
